@@ -210,7 +210,7 @@ def varDeclCalls (p : Prefs) (lv : Nat) : List VItem → List Call
     ++ varDeclCalls p lv rest
 
 def doVarDecl (p : Prefs) (lv : Nat) (items : List VItem) : Cps :=
-  if items.isEmpty then [] else strip (value (runCalls p (lv + 1) (varDeclCalls p lv items)))
+  if items.isEmpty then [] else stripKeepEsc (value (runCalls p (lv + 1) (varDeclCalls p lv items)))
 
 /-! ## rules -/
 
